@@ -341,6 +341,49 @@ fn polling(variant: usize, yield_every: u64) -> Result<(u64, String), String> {
     Ok((fin as u64 + 1, format!("a loop polling `{cond}` saw another thread's store {} iterations after it completed", fin - at_store.min(fin))))
 }
 
+/// runs that share no cell - each thread writes, reads back and removes files of its own in one shared directory through the
+/// standard library: every call gives what it gives sequentially
+fn own_files(threads: usize, rounds: usize, yield_every: u64) -> Result<(u64, String), String> {
+    let dir = format!("/verif/target/scratch/c16-files-{}", std::process::id());
+    std::fs::create_dir_all(&dir).map_err(|e| format!("scratch directory: {e}"))?;
+    let save = parse_function("(path: string, text: string) -> bool { w := std.fs.write_to_file(path, text); back := std.fs.file_read_to_string(path); return w == () && back == text }").ok_or("save rejected")?;
+    let barrier = Arc::new(Barrier::new(threads));
+    let mut handles = Vec::new();
+    for t in 0..threads {
+        let (save, barrier, dir) = (save.clone(), barrier.clone(), dir.clone());
+        handles.push(std::thread::Builder::new().stack_size(64 << 20).spawn(move || -> Result<usize, String> {
+            verif::set_yield_every(yield_every);
+            barrier.wait();
+            let mut bad = 0;
+            for r in 0..rounds {
+                let path = format!("{dir}/own-{t}.txt");
+                let text = format!("thread {t} round {r} {}", "x".repeat(r % 50));
+                let code = save.clone().create_call(vec![Variable::String(Arc::from(path.as_str())), Variable::String(Arc::from(text.as_str()))]).map_err(|e| format!("{e}"))?;
+                match real::guarded(|| code.exec()) {
+                    Ok(Ok(Variable::Bool(true))) => {}
+                    Ok(Ok(_)) => bad += 1,
+                    Ok(Err(e)) => return Err(format!("save failed with {e:?}")),
+                    Err(p) => return Err(format!("save panicked at {}: {}", p.site(), p.short_msg())),
+                }
+            }
+            Ok(bad)
+        }).map_err(|e| format!("spawn: {e}"))?);
+    }
+    let mut bad = 0;
+    for h in handles {
+        bad += h.join().map_err(|_| "worker thread died".to_string())??;
+    }
+    let left: Vec<String> = std::fs::read_dir(&dir).map(|rd| rd.flatten().map(|e| e.file_name().to_string_lossy().to_string()).filter(|n| !n.starts_with("own-")).collect()).unwrap_or_default();
+    let _ = std::fs::remove_dir_all(&dir);
+    if bad != 0 {
+        return Err(format!("{bad} of {} calls that write a file of the thread's own and read it back did not get their text back although no other thread touches that file (result differs from the sequential run)", threads * rounds));
+    }
+    if !left.is_empty() {
+        return Err(format!("files nobody asked for are left in the directory: {left:?} (result differs from the sequential run)"));
+    }
+    Ok(((threads * rounds) as u64, format!("{threads} threads x {rounds} write / read-back calls on files of their own in one directory agree with the sequential run")))
+}
+
 /// one shared function value whose *sites* (type tests, type arms, value arms, type filters, operators over unions) see
 /// values of a different runtime type from every thread at the same time: anything an implementation remembers per
 /// site (inline caches, memoised verdicts) must not leak between threads. Each call's result is compared with the
@@ -789,6 +832,7 @@ pub fn child(spec: &str) {
             "sites" => shared_sites(threads.max(2), size, yld),
             "mixed" => mixed_stores(threads.max(2), size, yld),
             "polling" => polling(size, yld),
+            "files" => own_files(threads.max(2), size, yld),
             r if r.starts_with("cross") => cross_cells(r[5..].parse().unwrap_or(0), threads.max(2), size, yld),
             other => Err(format!("unknown scenario {other}")),
         }
@@ -822,7 +866,8 @@ pub fn run(cfg: &Cfg, rep: &mut Report) {
         }
         let threads = *rng.pick(&[2usize, 2, 3, 4, 4, 8, 16]);
         let yld = *rng.pick(&[0usize, 0, 1, 2, 5]);
-        let (scenario, size) = match rng.below(28) {
+        let (scenario, size) = match rng.below(29) {
+            28 => ("files".to_string(), *rng.pick(&[20usize, 100, 300])),
             26 | 27 => ("polling".to_string(), rng.below(4)),
             24 | 25 => ("mixed".to_string(), *rng.pick(&[1usize, 4, 8])),
             22 | 23 => ("sites".to_string(), *rng.pick(&[100usize, 1000, 4000])),
